@@ -16,6 +16,23 @@ package sync
 //@ pred occurrences(s []TryLocker, l TryLocker) :=
 //@      b2i(len(s) > 0 && s[0] == l) + b2i(len(s) > 1 && s[1] == l) + b2i(len(s) > 2 && s[2] == l)
 
+// Concrete view, used to verify lock_pile.go itself. held(l) counts relative
+// to the entry of the function under verification; uf("heldatentry", l) is
+// how often the calling thread held l when the function was entered (an
+// uninterpreted function, constrained by the assumptions below), so that
+// nowheld(l) is how often the thread holds l at this point.
+//@ pred nowheld(l TryLocker) := held(l) + uf("heldatentry", l)
+//@ pred distinct(lp *LockPile) := forall a int, b int :: 0 <= a && a < b && b < len(*lp) ==> (*lp)[a].lock != (*lp)[b].lock
+
+// insert never adds a second entry for a lock that is in the pile already.
+//@ func (*LockPile).insert
+//@   props C14
+//@   loop 0 invariant 0 <= i && i <= len(*lp) && (forall j int :: 0 <= j && j < i ==> (*lp)[j].lock != newLock)
+//@   ensures grows-by-at-most-one: len(*lp) == old(len(*lp)) || len(*lp) == old(len(*lp)) + 1
+//@   ensures earlier-entries-keep-their-lock: forall j int :: 0 <= j && j < old(len(*lp)) ==> (*lp)[j].lock == old((*lp)[j].lock)
+//@   ensures a-new-entry-is-for-a-lock-that-was-not-in-the-pile:
+//@             len(*lp) == old(len(*lp)) + 1 ==> (*lp)[old(len(*lp))].lock == newLock && (forall j int :: 0 <= j && j < old(len(*lp)) ==> (*lp)[j].lock != newLock)
+
 // Lock: every new lock is in the pile once more; locks that were not in the
 // pile are now held. Whatever the return value, the same set of locks is held
 // afterwards (the return value only says whether pile locks were dropped
@@ -24,24 +41,69 @@ package sync
 // shared state of the LockPile's client (the virtual file system package) is
 // havocked across the call, which is how interference by other threads is
 // modelled.
+//
+// Proved on lock_pile.go: the deadlock-avoidance rule (a blocking acquisition
+// is only attempted while no lock of the pile is held) and that every lock of
+// the pile is held exactly once when Lock returns, whatever it returns.
 //@ func (*LockPile).Lock
 //@   props C14
-//@   trusted -- abstract contract of LockPile; lock_pile.go is not verified against it
+//@   nobalance
+//@   trustframe -- the abstract frame (held, pile) is the client's view; lock_pile.go is verified against the concrete clauses below
 //@   modifies held, pile[lp]
 //@   havoc F:pkg/filesystem/virtual.* M:* E:* MD:* MV:* MC
-//@   ensures len(newLocks) <= 3 ==> (forall l TryLocker :: pile[lp][l] == old(pile[lp][l]) + old(occurrences(newLocks, l)))
-//@   ensures forall l TryLocker :: held(l) == old(held(l)) + b2i(old(pile[lp][l]) == 0 && pile[lp][l] > 0)
+//@   ensures_assumed len(newLocks) <= 3 ==> (forall l TryLocker :: pile[lp][l] == old(pile[lp][l]) + old(occurrences(newLocks, l))) -- abstract view of LockPile (pile = recursion count + 1 per lock); the link between the slice of lock handles and this ghost map is not proved
+//@   ensures_assumed forall l TryLocker :: held(l) == old(held(l)) + b2i(old(pile[lp][l]) == 0 && pile[lp][l] > 0) -- abstract view of LockPile, as above; the concrete counterpart every-pile-lock-is-held-on-return is proved
+//@   assume distinct(lp) -- representation invariant of LockPile: a lock has one entry (insert only appends locks that are not in the pile: proved; Unlock removes whole entries)
+//@   assume forall j int :: 0 <= j && j < len(*lp) ==> uf("heldatentry", (*lp)[j].lock) == 1 -- representation invariant of LockPile: every lock in the pile is held once by the calling thread (every-pile-lock-is-held-on-return, proved for Lock)
+//@   assume forall l TryLocker :: uf("heldatentry", l) == 0 || (exists j int :: 0 <= j && j < len(*lp) && (*lp)[j].lock == l) -- client discipline: the calling thread holds no lock of this kind outside its pile
+//@   loop 0 invariant distinct(lp) && len(*lp) >= old(len(*lp)) && (forall j int :: 0 <= j && j < old(len(*lp)) ==> (*lp)[j].lock == old((*lp)[j].lock))
+//@   loop 1 lockvariant
+//@   loop 1 invariant 0 <= currentlyAcquired && currentlyAcquired <= len(*lp) && distinct(lp)
+//@   loop 1 invariant forall j int :: 0 <= j && j < currentlyAcquired ==> nowheld((*lp)[j].lock) == 1
+//@   loop 1 invariant forall j int :: currentlyAcquired <= j && j < len(*lp) ==> nowheld((*lp)[j].lock) == 0
+//@   loop 2 lockvariant
+//@   loop 2 invariant 0 <= i && i <= currentlyAcquired && currentlyAcquired < len(*lp) && distinct(lp)
+//@   loop 2 invariant forall j int :: 0 <= j && j < i ==> nowheld((*lp)[j].lock) == 0
+//@   loop 2 invariant forall j int :: i <= j && j < currentlyAcquired ==> nowheld((*lp)[j].lock) == 1
+//@   loop 2 invariant forall j int :: currentlyAcquired <= j && j < len(*lp) ==> nowheld((*lp)[j].lock) == 0
+//@   at call TryLocker).Lock#1 assert blocks-only-while-no-lock-of-the-pile-is-held:
+//@             forall j int :: 0 <= j && j < len(*lp) ==> nowheld((*lp)[j].lock) == 0
+//@   ensures every-pile-lock-is-held-on-return: forall j int :: 0 <= j && j < len(*lp) ==> nowheld((*lp)[j].lock) == 1
 
+// Unlock. Proved on lock_pile.go: the only lock that is released is the
+// requested one, and only when its recursion count is zero; its entry then
+// leaves the pile and every other entry stays, still held, without duplicates.
 //@ func (*LockPile).Unlock
 //@   props C14
-//@   trusted -- abstract contract of LockPile; lock_pile.go is not verified against it
+//@   nobalance
+//@   trustframe -- the abstract frame (held, pile) is the client's view; lock_pile.go is verified against the concrete clauses below
 //@   modifies held, pile[lp]
-//@   ensures forall l TryLocker :: pile[lp][l] == old(pile[lp][l]) - b2i(l == oldLock)
-//@   ensures forall l TryLocker :: held(l) == old(held(l)) - b2i(l == oldLock && old(pile[lp][l]) == 1)
+//@   ensures_assumed forall l TryLocker :: pile[lp][l] == old(pile[lp][l]) - b2i(l == oldLock) -- abstract view of LockPile; the link between the slice of lock handles and this ghost map is not proved
+//@   ensures_assumed forall l TryLocker :: held(l) == old(held(l)) - b2i(l == oldLock && old(pile[lp][l]) == 1) -- abstract view of LockPile, as above; the concrete counterparts below are proved
+//@   assume distinct(lp) -- representation invariant of LockPile (see Lock)
+//@   assume forall j int :: 0 <= j && j < len(*lp) ==> uf("heldatentry", (*lp)[j].lock) == 1 -- representation invariant of LockPile (see Lock)
+//@   loop 0 invariant 0 <= i && (forall j int :: 0 <= j && j < i && j < len(*lp) ==> (*lp)[j].lock != oldLock)
+//@   at call TryLocker).Unlock#1 assert releases-the-requested-lock-and-only-when-not-held-recursively: arg0 == oldLock && old((*lp)[i].recursion) <= 0
+//@   ensures a-recursive-unlock-releases-nothing: len(*lp) == old(len(*lp)) ==> (forall l TryLocker :: held(l) == old(held(l))) && (forall j int :: 0 <= j && j < len(*lp) ==> (*lp)[j].lock == old((*lp)[j].lock))
+//@   ensures a-final-unlock-releases-exactly-the-requested-lock: len(*lp) != old(len(*lp)) ==> len(*lp) == old(len(*lp)) - 1 && (forall l TryLocker :: held(l) == old(held(l)) - b2i(l == oldLock))
+//@   ensures the-released-lock-leaves-the-pile: len(*lp) != old(len(*lp)) ==> (forall j int :: 0 <= j && j < len(*lp) ==> (*lp)[j].lock != oldLock)
+//@   ensures the-remaining-locks-are-still-held-once-each: distinct(lp) && (forall j int :: 0 <= j && j < len(*lp) ==> nowheld((*lp)[j].lock) == 1)
+//@   ensures no-other-entry-is-lost: forall j int :: 0 <= j && j < old(len(*lp)) ==> old((*lp)[j].lock) == oldLock || (exists k int :: 0 <= k && k < len(*lp) && (*lp)[k].lock == old((*lp)[j].lock))
 
+// UnlockAll. Proved on lock_pile.go: every lock of the pile is released
+// exactly once and the pile is empty afterwards.
 //@ func (*LockPile).UnlockAll
 //@   props C14
-//@   trusted -- abstract contract of LockPile; lock_pile.go is not verified against it
+//@   nobalance
+//@   trustframe -- the abstract frame (held, pile) is the client's view; lock_pile.go is verified against the concrete clauses below
 //@   modifies held, pile[lp]
-//@   ensures forall l TryLocker :: pile[lp][l] == 0
-//@   ensures forall l TryLocker :: held(l) == old(held(l)) - b2i(old(pile[lp][l]) > 0)
+//@   ensures_assumed forall l TryLocker :: pile[lp][l] == 0 -- abstract view of LockPile; the link between the slice of lock handles and this ghost map is not proved
+//@   ensures_assumed forall l TryLocker :: held(l) == old(held(l)) - b2i(old(pile[lp][l]) > 0) -- abstract view of LockPile, as above; the concrete counterpart every-pile-lock-is-released-once is proved
+//@   assume distinct(lp) -- representation invariant of LockPile (see Lock)
+//@   assume forall j int :: 0 <= j && j < len(*lp) ==> uf("heldatentry", (*lp)[j].lock) == 1 -- representation invariant of LockPile (see Lock)
+//@   loop 0 lockvariant
+//@   loop 0 invariant rangeindex >= -1 && rangeindex < len(*lp) && distinct(lp)
+//@   loop 0 invariant forall j int :: 0 <= j && j <= rangeindex ==> nowheld((*lp)[j].lock) == 0
+//@   loop 0 invariant forall j int :: rangeindex < j && j < len(*lp) ==> nowheld((*lp)[j].lock) == 1
+//@   ensures every-pile-lock-is-released-once: forall j int :: 0 <= j && j < old(len(*lp)) ==> nowheld(old((*lp)[j].lock)) == 0
+//@   ensures the-pile-is-empty-afterwards: len(*lp) == 0
